@@ -1,4 +1,5 @@
 //! Shared helpers for the correspondence harness binaries.
+pub mod chainkit;
 pub mod elem;
 use std::io::Write;
 
